@@ -16,6 +16,7 @@ import (
 	"strconv"
 	"strings"
 	"sync"
+	"sync/atomic"
 	"time"
 
 	"verif/harness/lab/procnet"
@@ -226,6 +227,7 @@ type WS struct {
 	wmu      sync.Mutex
 	FragSize int // >0: split each message into continuation frames of at most this many bytes
 	closed   bool
+	paused   atomic.Bool
 }
 
 func (w *WS) Kind() string { return "ws" }
@@ -276,6 +278,9 @@ func (w *WS) readLoop(br *bufio.Reader) {
 	var msg []byte
 	inMsg := false
 	for {
+		for w.paused.Load() { // a stalled client: nothing is read from the socket
+			time.Sleep(time.Millisecond)
+		}
 		var h [2]byte
 		if _, err := io.ReadFull(br, h[:]); err != nil {
 			w.end(err)
@@ -401,6 +406,9 @@ func (w *WS) Send(unit []byte) error {
 	}
 	return nil
 }
+
+// Pause makes the client stop reading from its socket (true) or resume (false).
+func (w *WS) Pause(p bool) { w.paused.Store(p) }
 
 // SendText sends a text message (the gateway must treat it as an error).
 func (w *WS) SendText(p []byte) error { return w.writeFrame(0x1, true, p) }
